@@ -85,13 +85,13 @@ for k in range(NCLASS):
         a = ext(k, s, "tconv_tree_max", max); b = ext(k, s, "tconv_burst_max", max)
         m = max([v for v in (a, b) if v is not None], default=None)
         mrow.append("n/a" if m is None else "%d" % m)
-        if m is None or m >= 999: row.append(0)
+        if m is None: row.append(0)
         else:
             d = int(2 * m + 1)
             row.append(d if d + NSTAY_TAIL + 2 <= tailroom(k) else 0)
     ent.append(row); meas.append(mrow)
 out.append("/* O7a: within T_NCONV audible packets after reception resumes two consecutive packets are >= 27 dB SNR from the twin\n"
-           "   (2 x measured maximum + 1; 0 = no deadline: on that key the output did not re-converge within the stream's tail room, 999)\n"
+           "   (2 x measured maximum + 1; 0 = no deadline: the measured time, or its lower bound where the tail room ended first, does not fit twice into the tail room)\n"
            "   measured [class][speech,tone]: %s */" % " ".join("{%s}" % ",".join(m) for m in meas))
 out.append("static const int T_NCONV[K_NCLASS][2]={%s};" % ",".join("{%s}" % ",".join(str(v) for v in r) for r in ent))
 
